@@ -81,6 +81,13 @@ def cases(tier, rng):
             yield Case("value.named_tuplet", [name, F(b)], "tuplet/named", model=False)
         for a, c in ((3, 2), (5, 4), (7, 4), (7, 8)):
             yield Case("value.tuplet", [F(b), a, c], "tuplet")
+        # tuplets OF DOTTED values, by the named helpers and by the general formula: the same double as r1 * value / r2
+        for n in (1, 2, 3):
+            d = value.dots(b, n)
+            for name in ("triplet", "quintuplet", "septuplet"):
+                yield Case("value.named_tuplet", [name, F(d)], "tuplet/named-dotted", model=False)
+            for a, c in ((3, 2), (5, 4), (7, 4)):
+                yield Case("value.tuplet", [F(d), a, c], "tuplet/dotted", model=False)
     voc = list(vocab())
     for x, want in voc:
         yield Case("value.determine", [F(x)], "determine/built", kind=("built", want))
@@ -167,6 +174,8 @@ def oracle(c, obs):
         b, n = F(a[0]), a[1]
         return None if close(obs, b / 2 / (1 - F(1, 2 ** (n + 1)))) else "dots() is not value/2/(1-2^-(n+1))"
     if fn == "value.tuplet":
+        if c["tag"].endswith("dotted") and not isinstance(obs, Err):
+            return None if obs == F(a[1] * float(a[0]) / a[2]) else "tuplet() is not the double r1 * value / r2"
         return None if close(obs, F(a[1]) * F(a[0]) / a[2]) else "tuplet() is not the ratio formula"
     if fn == "value.named_tuplet":
         return None if obs[0] == obs[1] else "tuplet helper differs from the general ratio formula"
